@@ -59,7 +59,7 @@ CLAIMS = {
     "C12": {
         "engine": "vcore C12",
         "technique": PBT + ": stateful histories on a standalone pool with helper-thread waiters",
-        "text": "Generated submit/pass/cancel/wait/stop(long|short) histories: states only move forward, submits after stop are rejected, stop reports success only when every accepted uncancelled task has finished, waiters are settled after stop.",
+        "text": "Generated submit/pass/cancel/wait/wait-held-before-registering/stop(long|short) histories: states only move forward, submits after stop are rejected, stop reports success only when every accepted uncancelled task has finished, waiters are settled after stop.",
         "note": "Standalone CoroutinePool (the EventLoops stop path is exercised by the runtime engines); waiters run on helper threads sharing the pool by reference as EventLoops does; one fresh child process per history (single pool per process is an assumption of the claim, multi-pool accounting is not covered, DESIGN.md 10.1).",
     },
     "C16": {
